@@ -1,55 +1,50 @@
-//! Trusted model of the wasm32 simd128 intrinsics memchr uses (plain Rust
-//! over byte arrays, little endian). Copied into the `simd128` pseudo-target
-//! as `crate::verif_emul`; `core::arch::wasm32` is rewritten to
-//! `crate::verif_emul::wasm32`.
+//! FAST model of the wasm32 simd128 intrinsics memchr uses: a vector is a u128
+//! bit-vector (byte i of the little-endian value is lane i). Not trusted on
+//! its own: the `emul_equiv_simd128` harness proves every function equal to
+//! the lane-wise reference in simd128_ref.rs for all inputs, on every run.
+//! Copied into the `simd128` pseudo-target as `crate::verif_emul`.
 
 pub mod wasm32 {
+    const LO7: u128 = 0x7F7F7F7F_7F7F7F7F_7F7F7F7F_7F7F7F7F;
+
     #[derive(Clone, Copy, Debug)]
     #[repr(C, align(16))]
-    pub struct v128(pub [u8; 16]);
+    pub struct v128(pub u128);
 
     #[inline(always)]
     pub fn u8x16_splat(b: u8) -> v128 {
-        v128([b; 16])
+        let mut v = b as u128;
+        v |= v << 8;
+        v |= v << 16;
+        v |= v << 32;
+        v |= v << 64;
+        v128(v)
     }
 
     /// Unaligned 16-byte load.
     #[inline(always)]
     pub unsafe fn v128_load(p: *const v128) -> v128 {
-        v128(core::ptr::read_unaligned(p as *const [u8; 16]))
+        v128(u128::from_le(core::ptr::read_unaligned(p as *const u128)))
     }
 
     #[inline(always)]
     pub fn u8x16_eq(a: v128, b: v128) -> v128 {
-        let mut o = [0u8; 16];
-        let mut i = 0;
-        while i < 16 {
-            o[i] = if a.0[i] == b.0[i] { 0xFF } else { 0 };
-            i += 1;
-        }
-        v128(o)
+        let x = a.0 ^ b.0;
+        let t = !(((x & LO7) + LO7) | x | LO7);
+        let mut m = t | (t >> 1);
+        m |= m >> 2;
+        m |= m >> 4;
+        v128(m)
     }
 
     #[inline(always)]
     pub fn v128_and(a: v128, b: v128) -> v128 {
-        let mut o = [0u8; 16];
-        let mut i = 0;
-        while i < 16 {
-            o[i] = a.0[i] & b.0[i];
-            i += 1;
-        }
-        v128(o)
+        v128(a.0 & b.0)
     }
 
     #[inline(always)]
     pub fn v128_or(a: v128, b: v128) -> v128 {
-        let mut o = [0u8; 16];
-        let mut i = 0;
-        while i < 16 {
-            o[i] = a.0[i] | b.0[i];
-            i += 1;
-        }
-        v128(o)
+        v128(a.0 | b.0)
     }
 
     #[inline(always)]
@@ -57,7 +52,7 @@ pub mod wasm32 {
         let mut m = 0u16;
         let mut i = 0;
         while i < 16 {
-            m |= ((a.0[i] >> 7) as u16) << i;
+            m |= (((a.0 >> (8 * i + 7)) & 1) as u16) << i;
             i += 1;
         }
         m
